@@ -632,14 +632,14 @@ def _build_end_to_end(ctx, rid, reg):
     warm_mods = sorted({(m["name"], m["type"]) for ch in warm["channels"] for sm in ch["samples"] for m in sm["modifiers"]})
     warm_cfg = Obj("config", {"channels": ["ca", "cm"], "samples": ["s1", "s2"], "channel_nbins": {"ca": c(3), "cm": c(1)}, "modifiers": list(warm_mods), "modifier_settings": settings})
     try:
-        w.call_func(f, [mset, warm_cfg, warm, Obj("WARM_BATCH")])
+        w.call_func(f, [], build_args(f, mset, warm_cfg, warm, Obj("WARM_BATCH")))
     except (FragmentFault, Undecided, KeyError, TypeError, ValueError, IndexError, AttributeError) as e:
         ctx.unrecognised(rid, f, "_nominal_and_modifiers_from_spec (first model of the process)", f"not interpretable: {type(e).__name__}: {e}")
         return
     rec["appliers"].clear()
     rec.pop("finalize_args", None)
     try:
-        out = w.call_func(f, [mset, cfg, spec, Obj("BATCH")])
+        out = w.call_func(f, [], build_args(f, mset, cfg, spec, Obj("BATCH")))
     except FragmentFault as e:
         ctx.violated(rid, f, "_nominal_and_modifiers_from_spec", f"on a well-formed configuration the code indexes outside its own tensors: {e}")
     except (Undecided, KeyError, TypeError, ValueError, IndexError, AttributeError) as e:
@@ -970,6 +970,15 @@ def _config_methods(w, cfg, pm):
     w.base[".param_set"] = param_set
     w.ext = None
 
+
+def build_args(f, modifier_set, config, spec, batch_size):
+    """keyword actuals for _nominal_and_modifiers_from_spec by parameter NAME (the order of a private function's parameters is
+    whatever its definition and its one call site say today); positional in the pinned order if the names are gone too"""
+    names = [a.arg for a in f.node.args.args]
+    vals = {"modifier_set": modifier_set, "config": config, "spec": spec, "batch_size": batch_size}
+    if set(names) == set(vals):
+        return dict(vals)
+    return dict(zip(names, (modifier_set, config, spec, batch_size)))
 
 def param_stubs(repo, rec):
     """Recorders for the two private helpers _nominal_and_modifiers_from_spec composes, bound the way the helpers are DEFINED
